@@ -88,7 +88,7 @@ func runOne(c *rig.Check, t *testing.T, s sched, verbose bool) (sigs []string) {
 	for k, v := range stats {
 		c.Count(k, int64(v))
 	}
-	forcedHit, forced := false, false
+	forcedHit, forced, forcedNothingSelected := false, false, false
 	for i, ev := range lg.Events {
 		if ev == nil {
 			continue
@@ -102,16 +102,22 @@ func runOne(c *rig.Check, t *testing.T, s sched, verbose bool) (sigs []string) {
 			if (f == "pred" && ev.HookPred) || (f == "sel" && ev.HookSel) {
 				forcedHit = true
 			}
+			if f == "sel" && s.Ops[i].Kind == "pex" && ev.HookPred && len(ev.Claims) == 0 {
+				forcedNothingSelected = true
+			}
 		}
 	}
 	if forced {
 		c.Count("forced_cases", 1)
-		if forcedHit {
+		switch {
+		case forcedHit:
 			c.Count("forced_cases_hook_hit", 1)
-		} else if len(findings) == 0 {
-			// the stress part of the case still ran and was checked; the forced window was not
-			// exercised (hooks not compiled in, or the delayed claimer selected nothing)
-			c.Count("forced_cases_hook_not_hit", 1)
+		case forcedNothingSelected:
+			// swamp.patchExpired.afterSelect sits behind "nothing selected -> return": there was no
+			// window to force; the rest of the case ran and was checked as a stress case
+			c.Count("forced_cases_nothing_selected", 1)
+		case len(findings) == 0:
+			c.Inconclusive("the delayed claimer never reached its hook (hooks not compiled in?)")
 		}
 	}
 	for _, n := range hookNames {
@@ -139,6 +145,9 @@ func TestCheck(t *testing.T) {
 		"ShiftByKeys is a mutator here, not a claimer: a record popped by key and by an overlapping claimer is counted (bycatch), not judged",
 		"an acknowledged Delete of a key removes every version written (acknowledged) before the Delete started; the Delete response does not say which version it removed",
 		"oldest-first is judged only for records nobody touched: seeded, no mutator names the key, in no PatchExpired answer, still present afterwards",
+		"'in index order' is judged on the returned attributes (ExpiredAt / key / CreatedAt), leaving out records whose sort attribute another request was rewriting while the claim ran",
+		"conservation (claimed + remaining + deleted/overwritten = created) is the design's clause, not a sentence of the property statement: a version that an acknowledged Set or patch wrote and that is gone without having been handed out is reported under conservation:lost",
+		"a request that never returns: when every request goroutine of the bubble is parked on an index lock or a record guard in two goroutine dumps taken one second apart, the schedule is reported as a lock-order deadlock (hang:*, DESIGN 2.2); the property statement itself does not speak about termination",
 		"ordered indexes are built before the concurrent phase (a save racing with a cold index build is C07-F5); the swamp keeps an anchor record so that it never destroys itself while requests run (C16)",
 		"recovered panics and data-race reports are counted, not judged (C10)",
 		"not driven: the *Many batch variants, Cap (C12), value indexes, V1 engine, eviction / reload during the claims",
@@ -162,12 +171,14 @@ func TestCheck(t *testing.T) {
 		c.MinNontrivial = 0
 		reps, hit := 25, 0
 		for i := 0; i < reps; i++ {
+			stop := watchdog(c, &w.Witness.Sched) // a dead-locked replay reports the deadlock and exits
 			for _, s := range runOne(c, t, w.Witness.Sched, i == 0) {
 				if s == w.Sig {
 					hit++
 					break
 				}
 			}
+			stop()
 		}
 		fmt.Printf("REPLAY property=C11 sig=%s reproduced %d of %d runs\n", w.Sig, hit, reps)
 	case c.IsChild():
